@@ -126,8 +126,39 @@ def msg_scenarios(rng, tier, runner):
         out.append(Scenario("msg-for-" + s.name, ls, dict(s.meta, kind="msg-foreign")))
     return out
 
+def sample_scenarios(rng, tier):
+    """the repository's sample messages (Test/BUFR: data present bit-maps and quality operators 2 22 - 2 37, 2 06/2 07,
+    local descriptors, compressed data): decode, re-encode with the original compression, three rounds.  The
+    bit-map operators are outside the model: these chains run on the implementation alone (`nomodel`) and are
+    judged by the property's oracle."""
+    import glob, os
+    from vlib import tables
+    out = []
+    cap = 12000 if tier == "quick" else 200000
+    for f in sorted(glob.glob(os.path.join(tables.REPO, "Test/BUFR/*.bufr"))):
+        m = open(f, "rb").read()
+        i0 = m.find(b"BUFR")
+        if i0 < 0 or len(m) > cap:
+            continue
+        # every message of the file
+        pos, k = i0, 0
+        while 0 <= pos < len(m) and k < 4:
+            ln = (m[pos + 4] << 16) | (m[pos + 5] << 8) | m[pos + 6] if pos + 8 <= len(m) else 0
+            if ln < 16 or pos + ln > len(m) or m[pos + ln - 4:pos + ln] != b"7777":
+                break
+            one = m[pos:pos + ln]
+            for tb in ("cur", "loc"):
+                ls = ["T.use " + tb]
+                for r in range(3):
+                    ls += ["ds.decodemsg " + (one.hex() if r == 0 else "@"), "dd.list 0", "dd.vals 0", "dd.list 1", "dd.vals 1",
+                           "ds.hdr d", "dd.tocur", "ds.msg s -1"]
+                out.append(Scenario("sample-%s-%d-%s" % (os.path.basename(f)[:-5], k, tb), ls,
+                                    {"kind": "msg-sample", "tables": tb, "nomodel": True, "views": 2}))
+            pos = m.find(b"BUFR", pos + ln); k += 1
+    return out
+
 def scenarios(rng, tier, runner):
-    out = msg_scenarios(rng, tier, runner)
+    out = msg_scenarios(rng, tier, runner) + sample_scenarios(rng, tier)
     n = 450 if tier == "quick" else 8000
     stage1 = []
     for i in range(n):
@@ -219,7 +250,12 @@ def scenarios(rng, tier, runner):
         out.append(Scenario("for-" + s.name, ls, meta))
     return out
 
-compare = c01.compare
+def compare(scn, lscn, cr, lr):
+    if scn.meta.get("nomodel"):
+        # outside the model (bit-map operators): only the implementation's own outcome counts; the oracle judges it
+        from vlib.engine import compare as cmp0
+        return cmp0(scn, cr, (list(cr[0]), None), None)
+    return c01.compare(scn, lscn, cr, lr)
 
 def oracle(scn, outs):
     # the chain  [E0 =] m -decode-> D0 -encode-> m1 -decode-> D1 -encode-> m2 [-decode-> D2 -encode-> m3]:
@@ -228,7 +264,7 @@ def oracle(scn, outs):
     if len(outs) != len(scn.lines):
         return None
     lines = scn.lines
-    own = scn.meta.get("kind") in ("own", "msg-own")
+    own = scn.meta.get("kind") in ("own", "msg-own")     # msg-foreign and msg-sample: m is somebody else's message
     whole = scn.meta.get("kind", "").startswith("msg-")
     decs = [i for i, l in enumerate(lines) if l.startswith("ds.decode")]
     if not decs:
@@ -262,13 +298,19 @@ def oracle(scn, outs):
         views.append((ls, vs))
     l1, v1 = views[0]
     ed = scn.meta.get("ed", 4)
-    want = set(range(nsub))
+    want = set(range(min(nsub, scn.meta["views"]))) if "views" in scn.meta else set(range(nsub))
+    sample = scn.meta.get("kind") == "msg-sample"
+    if sample:
+        # a subset the message does not have answers `none`: dropped from the views
+        for ls_, vs_ in views:
+            for k in [k for k in ls_ if k not in want]: del ls_[k]
+            for k in [k for k in vs_ if k != "header" and k not in want]: del vs_[k]
     if set(l1) != want or set(v1) - {"header"} != want or (whole and "header" not in v1):
         return None
     for k in l1:
         if l1[k] in ("none", "-"):
             return None
-        if c09.in_scope(ed, [nd["desc"] for nd in c09.items_of(parse_nodes(l1[k]))]):
+        if not sample and c09.in_scope(ed, [nd["desc"] for nd in c09.items_of(parse_nodes(l1[k]))]):
             return None     # operators outside FM 94 for this edition: not a well-formed message
         for nd, v in zip(parse_nodes(l1[k]), v1[k].split()):
             if nd["flags"] & 4: continue
